@@ -953,9 +953,10 @@ def _ctor_domain(ctx, R, repo, sd, sf, des):
                                         if isinstance(a, ast.expr)):
                         combos.append((g_, x))
         ctx.ob(R, f"{ci.name}: every stored value has a member name (SerializedCapData.{field} carries the name)",
-               not combos, f"{ci.module.rel}:{ci.node.lineno}",
-               f"{ci.name} is a Flag and members are combined ({[g_.qual + ': ' + norm(x) for g_, x in combos[:3]]}): a composite "
-               f"value has no name that {ci.name}[...] can look up on hydration")
+               not is_flag, f"{ci.module.rel}:{ci.node.lineno}",
+               f"{ci.name} is a Flag: combined values become expressible (in-tree combinations: "
+               f"{[g_.qual + ': ' + norm(x) for g_, x in combos[:3]]}) and a composite value has no name that {ci.name}[...] can "
+               f"look up on hydration (KeyError in from_state, before the try/finally)")
     ctx.ob(R, "SerializedCapData constructions checked against the field domains", n >= 1, f"{sd.module.rel}:{sd.node.lineno}",
            f"{n} construction site(s), enum-by-name fields {sorted(by_name)}")
 
@@ -995,6 +996,64 @@ def _queue_cycle(ctx, R, repo):
     ctx.ob(R, "HTTPFlowContext: the two flow queues cannot both block their producer", len(stuck) < 2, fcx.where,
            f"{stuck} are bounded and written with blocking put() from the two event loops: when both fill up each "
            f"process waits for the other to drain its queue and no flow is handed back again")
+
+
+def _region_key_unique(ctx, R, repo, des):
+    """CapData crosses the process boundary with the region identified by one attribute (deserialize compares
+    `str(<region>.<key>)`): the session's region registry must keep that attribute unique, i.e. register_region never
+    appends a region while one with the same key is already registered."""
+    keys = set()
+    sp = [a.arg for a in des.node.args.args][1]
+    for g in _callees(repo, des, depth=2):
+        for x in walk(g.node, into_defs=True):
+            if isinstance(x, ast.Compare) and len(x.ops) == 1 and isinstance(x.ops[0], ast.Eq):
+                sides = [x.left, x.comparators[0]]
+                if any((ap(s_) or "").endswith("region_addr") for s_ in sides):
+                    for s_ in sides:
+                        for y in ast.walk(s_):
+                            if isinstance(y, ast.Attribute) and not (ap(y) or "").startswith(sp + ".") and \
+                                    not (ap(y) or "").endswith("region_addr"):
+                                keys.add(y.attr)
+                        for y in ast.walk(s_):    # getattr(candidate, "circuit_addr") in a generic helper
+                            if isinstance(y, ast.Constant) and isinstance(y.value, str) and y.value.isidentifier():
+                                keys.add(y.value)
+    rr = repo.fn_opt("BaseClientSession.register_region")
+    if rr is None or not keys:
+        ctx.note(f"C15.R4: region key of CapData.deserialize ({sorted(keys)}) / register_region not located: uniqueness not checked")
+        return
+    cfg = CFG(rr.node)
+    appends = {n for n in cfg.nodes for c in cfg_node_calls_(cfg, n) if call_attr(c) in ("append", "insert", "add")
+               and isinstance(c.func, ast.Attribute) and (ap(c.func.value) or "").endswith(".regions")}
+    n_match = 0
+    for x in walk(rr.node):
+        if isinstance(x, ast.If):
+            at = [e for e, pol in atoms(x.test, True) if pol and isinstance(e, ast.Compare) and len(e.ops) == 1
+                  and isinstance(e.ops[0], ast.Eq) and any(isinstance(y, ast.Attribute) and y.attr in keys
+                                                          for s_ in (e.left, e.comparators[0]) for y in ast.walk(s_))]
+            if not at or not any(isinstance(a, (ast.For, ast.While)) for a in ancestors(x)):
+                continue
+            n_match += 1
+            first = [n for n in cfg.nodes if x.body and n.ast is x.body[0]]
+            tn = [n for n in cfg.nodes if n.ast is x]
+            path = cfg_search(cfg, tn, target=lambda n: n in appends, avoid=lambda n: x.orelse and n.ast is x.orelse[0],
+                              follow_exc=lambda n: False, start_edges="normal") if first else None
+            # only paths that go through the matching branch count
+            if path is not None and not any(p_ in first for p_ in path):
+                path = cfg_search(cfg, first, target=lambda n: n in appends, follow_exc=lambda n: False, start_edges="normal")
+                if path is None and any(n in appends for n in first):
+                    path = first
+            ctx.ob(R, f"{rr.qual}: a region whose {sorted(keys & {y.attr for e in at for y in ast.walk(e) if isinstance(y, ast.Attribute)})} "
+                      f"matches is reused, never registered a second time", path is None, ctx.w(rr, x),
+                   "two registered regions can share the attribute CapData uses to name the owning region across the process "
+                   "boundary: a flow of the first comes back from from_state() owned by the other",
+                   cfg.describe_path(path) if path else None)
+    ctx.ob(R, "register_region checked against the region key of CapData.deserialize", n_match >= 1, rr.where,
+           f"key attribute(s) {sorted(keys)}, {n_match} matching test(s)")
+
+
+def cfg_node_calls_(cfg, n):
+    e = cfg_node_expr(cfg, n)
+    return [] if e is None else [x for x in walk(e) if isinstance(x, ast.Call)]
 
 
 def r4(ctx):
@@ -1059,6 +1118,7 @@ def r4(ctx):
     _presence_by_truthiness(ctx, R, repo, cd, ser, des, callable_fields)
     _ctor_domain(ctx, R, repo, sd, sf, des)
     _queue_cycle(ctx, R, repo)
+    _region_key_unique(ctx, R, repo, des)
     params = [a.arg for a in des.node.args.args]
     ctx.require(len(params) >= 2, "CapData.deserialize lost its serialised-data parameter")
     sp = params[1]
@@ -1332,7 +1392,60 @@ def r4(ctx):
                 f"the cross-process state transfer") if changed else "")
 
 
+_DEADLINE_CALLS = {"timeout", "timeout_at", "wait_for", "fail_after", "move_on_after"}
+
+
+def r5(ctx):
+    repo = ctx.repo
+    R = "C15.R5"
+    ctx.rule(R, "code that holds a taken flow (a function outside the event manager that calls <param>.resume()) resumes "
+                "it on every exit on which there is evidence of an exception: an explicit raise/assert or an enclosing "
+                "deadline (asyncio.timeout / wait_for) must not be able to skip the resume")
+    n = 0
+    for f, c in call_index(repo).get("resume", []):
+        if c.args or not isinstance(c.func, ast.Attribute) or not isinstance(c.func.value, ast.Name):
+            continue
+        g = f
+        fnode = None
+        for a in ancestors(c):
+            if isinstance(a, FUNC_TYPES):
+                fnode = a
+                break
+        if fnode is None:
+            continue
+        params = {a.arg for a in fnode.args.args + fnode.args.kwonlyargs}
+        if c.func.value.id not in params or c.func.value.id in ("self", "cls"):
+            continue       # pump_proxy_event / _pump_callbacks resume locals (R1 / R3)
+        n += 1
+        cfg = CFG(fnode)
+        rn = set(cfg.stmt_nodes_containing(c))
+        deadline_bodies = set()
+        for w in [x for x in walk(fnode) if isinstance(x, (ast.With, ast.AsyncWith))]:
+            if any(isinstance(it.context_expr, ast.Call) and call_attr(it.context_expr) in _DEADLINE_CALLS for it in w.items):
+                deadline_bodies |= {id(x) for st_ in w.body for x in ast.walk(st_)}
+
+        def evidence(nd):
+            e = cfg_node_expr(cfg, nd)
+            if e is None:
+                return False
+            if any(isinstance(x, (ast.Raise, ast.Assert)) for x in walk(e)):
+                return True
+            if nd.ast is not None and id(nd.ast) in deadline_bodies and any(isinstance(x, (ast.Await, ast.Call)) for x in walk(e)):
+                return True
+            return any(isinstance(x, ast.Call) and call_attr(x) in _DEADLINE_CALLS and
+                       (ap(x.func) or "").split(".")[0] in ("asyncio", "anyio", "async_timeout") for x in walk(e))
+        ev_nodes = [nd for nd in cfg.nodes if nd not in rn and evidence(nd)]
+        path = cfg_search(cfg, ev_nodes, target=lambda x: x is cfg.raise_exit, avoid=lambda x: x in rn,
+                          follow_exc=evidence, start_edges="exc") if ev_nodes else None
+        ctx.ob(R, f"{f.qual}: {norm(c)} cannot be skipped by a deadline / raise in the same function", path is None,
+               ctx.w(f, c), "the exception leaves the function before the resume: the taken flow is never handed back "
+               "(resume in a finally, or handle the timeout and answer with an error response)",
+               cfg.describe_path(path) if path else None)
+    ctx.floor(R, "holders of taken flows", n, 1)
+
+
 def run(ctx):
+    r5(ctx)
     r1(ctx)
     r2(ctx)
     r3(ctx)
@@ -1351,4 +1464,4 @@ def run(ctx):
                      f"raises (e.g. BaseAddon._schedule_task without a session) the flow stays taken and is never "
                      f"resumed (not armed: depends on code outside the anchored hand-back structure)")
     if others:
-        ctx.note(f"C15: resume() also called by {sorted(set(others))} (code holding a taken flow; not checked)")
+        ctx.note(f"C15: resume() also called by {sorted(set(others))} (code holding a taken flow; see C15.R5)")
